@@ -387,6 +387,11 @@ func (s *sim) mainLoop() {
 			s.dirty = true
 			continue
 		}
+		if s.releaseFlusherSet() {
+			idle = 0
+			s.dirty = true
+			continue
+		}
 		if streak < 64 && s.grantOne() {
 			// let the critical section run before looking at outboxes; but never
 			// starve the rest of the loop (a node can produce blocks in zero
